@@ -2,7 +2,12 @@
 use crate::util::*;
 use compute::linalg::{matmul, matmul_blocked, xtx, Dot, Matrix, Vector};
 
-fn ints(r: &mut Rng, n: usize) -> Vec<f64> { (0..n).map(|_| r.small_int(9)).collect() }
+/// small integers, sometimes (one operand in six) scaled as a whole by a power of two between 2^-70 and 2^70: every product and partial sum
+/// stays exact, while magnitudes leave the neighbourhood of 1 (entries far below machine epsilon are still entries)
+fn ints(r: &mut Rng, n: usize) -> Vec<f64> {
+    let c = if r.coin(1.0 / 6.0) { (2.0f64).powi(r.range(-70, 70) as i32) } else { 1.0 };
+    (0..n).map(|_| r.small_int(9) * c).collect()
+}
 fn reals(r: &mut Rng, n: usize) -> Vec<f64> { (0..n).map(|_| r.uniform(-4.0, 4.0)).collect() }
 
 fn shapes(ta: bool, tb: bool, m: usize, l: usize, n: usize) -> (usize, usize, usize, usize) {
